@@ -42,6 +42,16 @@ Classes ==
        Cls("data_to_unreach_garbage", "data", TRUE, "na", "na", "na"),
        Cls("data_to_unreach_wrongtypes", "data", TRUE, "na", "na", "na"),
        Cls("data_to_unreach_valid", "data", TRUE, "na", "na", "na"),
+       Cls("data_to_unreach_null", "data", TRUE, "na", "na", "na"),
+       Cls("data_to_unreach_array", "data", TRUE, "na", "na", "na"),
+       Cls("data_to_unreach_emptyobj", "data", TRUE, "na", "na", "na"),
+       Cls("data_to_unreach_string", "data", TRUE, "na", "na", "na"),
+       Cls("data_to_unreach_number", "data", TRUE, "na", "na", "na"),
+       Cls("data_to_unreach_bool", "data", TRUE, "na", "na", "na"),
+       Cls("data_to_unreach_deep", "data", TRUE, "na", "na", "na"),
+       Cls("data_to_unreach_empty", "data", TRUE, "na", "na", "na"),
+       Cls("data_to_ping_payload", "data", TRUE, "na", "na", "na"),
+       Cls("data_from_unreach_to_unbound", "data", TRUE, "na", "na", "na"),
        Cls("data_to_unbound", "data", TRUE, "na", "na", "na"),
        Cls("data_empty_service", "data", TRUE, "na", "na", "na"),
        Cls("data_ttl0_elsewhere", "data", TRUE, "na", "na", "na"),
